@@ -48,4 +48,5 @@ var (
 func init() {
 	reg(check{id: "C18", bin: plainCmds, engine: "enum", quickShards: 1, thoroughShards: 16})
 	reg(check{id: "C02", bin: simRoot, engine: "gosim", quickShards: 8, thoroughShards: 16, gomaxprocs: 1})
+	reg(check{id: "C24", bin: simRoot, engine: "gosim", quickShards: 8, thoroughShards: 16, gomaxprocs: 1})
 }
